@@ -98,6 +98,24 @@ def seq_case(cls, ops):
                     I.goal("accepted")
                     I.prove(f"C16.{cls}.accepted_add_appends_exactly_one", len(after) == len(before) + 1 and after[-1] is x and all(a is b for a, b in zip(after, before)))
                     I.prove(f"C16.{cls}.wrong_kind_never_accepted", desc[0] == "T")
+            elif op[0] == "selfset":
+                # the assigned value is (derived from) the block's own list: every element is
+                # a valid track of this block, so the assignment must install exactly them
+                own = blk.tracks
+                xs = list(reversed(before)) if op[1] == "reversed" else list(before)
+                val = {"same": own, "gen": (t for t in own), "reversed": reversed(own), "copy": list(own)}[op[1]]
+                try:
+                    blk.tracks = val
+                    exc = None
+                except Exception as e:  # noqa: BLE001
+                    exc = e
+                after = list(S.items_of(cls, blk))
+                I.observe(f"step{step}", [type(exc).__name__ if exc else None, len(after)])
+                I.goal("self_assigned")
+                I.prove(f"C16.{cls}.assigning_own_tracks_is_accepted", exc is None, f"{type(exc).__name__ if exc else ''}")
+                if exc is None:
+                    I.prove(f"C16.{cls}.accepted_assignment_installs_exactly_the_list", len(after) == len(xs) and all(a is b for a, b in zip(after, xs)),
+                            f"own list ({op[1]}): {len(xs)} before, {len(after)} after")
             else:  # assign a whole list
                 xs, descs = [], []
                 for j, spec in enumerate(op[1]):
@@ -139,12 +157,15 @@ def _alphabet(cls, tier):
         if not q:
             lists += [([("T", 0)], "list"), ([("T", 1), ("T", 1), ("W", "int")], "list"), ([("T", 3), ("T", 3)], "iter"), ([("T", 2), ("W", "str"), ("T", 2)], "tuple")]
         ops += [("set", l, k) for l, k in lists]
+        ops += [("selfset", k) for k in (["same", "gen"] if q else ["same", "gen", "reversed", "copy"])]
     return ops
 
 
 def _opname(op):
     if op[0] == "add":
         return f"add{op[1][0]}{op[1][1]}"
+    if op[0] == "selfset":
+        return f"setown_{op[1]}"
     return "set[" + ",".join(f"{a}{b}" for a, b in op[1]) + "]" + op[2]
 
 
